@@ -21,7 +21,6 @@
 #include <stdlib.h>
 #include <string.h>
 #include <sys/mman.h>
-#include <ucontext.h>
 #include "vh.h"
 
 #if defined(__SANITIZE_ADDRESS__)
@@ -67,7 +66,7 @@ typedef struct vthr_s {
   const void *wait_obj;
   vmutex_t *wait_mutex;
   int wait_tid;
-  ucontext_t ctx;
+  void *sp;                 /* saved stack pointer while switched out */
   unsigned char *stack;
   size_t stack_sz;
   void (*fn)(void *);
@@ -94,6 +93,22 @@ long sch_steps, sch_total_steps;
 int sch_active;
 uint64_t sch_clock;
 
+/* Minimal x86-64 context switch (callee-saved registers + stack pointer).
+ * swapcontext() costs a sigprocmask system call per switch and, under ASan,
+ * a shadow wipe of the whole target stack; fibers here never touch the signal
+ * mask and are announced to the sanitizers explicitly. */
+void vh_ctx_switch(void **save_sp, void *new_sp);
+__asm__(".text\n"
+        ".globl vh_ctx_switch\n"
+        ".type vh_ctx_switch,@function\n"
+        "vh_ctx_switch:\n"
+        "  pushq %rbp\n  pushq %rbx\n  pushq %r12\n  pushq %r13\n  pushq %r14\n  pushq %r15\n"
+        "  movq %rsp, (%rdi)\n"
+        "  movq %rsi, %rsp\n"
+        "  popq %r15\n  popq %r14\n  popq %r13\n  popq %r12\n  popq %rbx\n  popq %rbp\n"
+        "  ret\n"
+        ".size vh_ctx_switch, .-vh_ctx_switch\n");
+
 static void
 switch_to(int next) {
   int prev = cur;
@@ -107,7 +122,7 @@ switch_to(int next) {
 #ifdef VH_TSAN
   __tsan_switch_to_fiber(thr[next].tsan_fiber, 1 /* no_sync */);
 #endif
-  swapcontext(&thr[prev].ctx, &thr[next].ctx);
+  vh_ctx_switch(&thr[prev].sp, thr[next].sp);
 #ifdef VH_ASAN
   __sanitizer_finish_switch_fiber(thr[cur].fake_stack, NULL, NULL);
 #endif
@@ -292,11 +307,16 @@ new_thread(void (*fn)(void *), void *(*pfn)(void *), void *arg) {
   thr[t].pfn = pfn;
   thr[t].arg = arg;
   thr[t].state = T_RUN;
-  getcontext(&thr[t].ctx);
-  thr[t].ctx.uc_stack.ss_sp = thr[t].stack;
-  thr[t].ctx.uc_stack.ss_size = thr[t].stack_sz;
-  thr[t].ctx.uc_link = NULL;
-  makecontext(&thr[t].ctx, fiber_main, 0);
+  {
+    /* initial frame: six zeroed callee-saved registers, then the entry address
+     * that vh_ctx_switch's "ret" jumps to, then a dummy return slot so that the
+     * entry function sees the ABI's stack alignment (rsp % 16 == 8) */
+    uint64_t *top = (uint64_t *)(thr[t].stack + thr[t].stack_sz);
+    top[-1] = 0;
+    top[-2] = (uint64_t)(uintptr_t)fiber_main;
+    top[-3] = top[-4] = top[-5] = top[-6] = top[-7] = top[-8] = 0;
+    thr[t].sp = &top[-8];
+  }
 #ifdef VH_TSAN
   thr[t].tsan_fiber = __tsan_create_fiber(0);
 #endif
@@ -327,10 +347,13 @@ sch_run(void (*body)(void *), void *arg, const sch_cfg_t *c) {
 #ifdef VH_ASAN
   {
     /* bounds of the OS thread's stack, needed when switching back to HOME */
-    pthread_attr_t a; void *sp; size_t sz;
-    pthread_getattr_np(pthread_self(), &a);
-    pthread_attr_getstack(&a, &sp, &sz);
-    pthread_attr_destroy(&a);
+    static void *sp; static size_t sz;
+    if (!sp) {
+      pthread_attr_t a;
+      pthread_getattr_np(pthread_self(), &a);
+      pthread_attr_getstack(&a, &sp, &sz);
+      pthread_attr_destroy(&a);
+    }
     thr[HOME].stack = sp;
     thr[HOME].stack_sz = sz;
   }
